@@ -360,9 +360,12 @@ def _parse_object(
         if not (re.fullmatch("[0-9]+", tail) and _title_format(head)):
             break
         base, suffix = head, f"_{tail}{suffix}"
-    title = _title_format(base) or _title_format(autotitle)
-    if not title:
-        raise SchemaParseError.missing_title(schema)
+    title = (
+        _title_format(base)
+        or _title_format(autotitle)
+        # Neither has a letter or digit (e.g. the pattern ".*"): spell it out.
+        or _title_format(_spell_out(autotitle or base))
+    )
     if title[0].isdigit():
         title = f"_{title}"
     if title in _RESERVED_TITLES:
@@ -608,6 +611,13 @@ def _keyword_filter(type_: Type) -> Callable[[Dict[str, Any]], Dict[str, Any]]:
         return {key: value for key, value in schema.items() if key in args}
 
     return _filter
+
+
+def _spell_out(name: str) -> str:
+    """Name each character of a string, e.g. ``"FULL STOP ASTERISK"``."""
+    return " ".join(
+        unicodedata.name(char, f"u{ord(char):04x}") for char in name
+    )
 
 
 def _title_format(name: str) -> str:
